@@ -649,7 +649,7 @@ static const char *kids_state(void)
 static void dummy_handler(int s) { (void) s; }
 
 // ------------------------------------------------------------------ parsing helpers
-static char *tok[512];
+static char *tok[8192];
 static int ntok, tp;
 
 static const char *nexttok(void) { return tp < ntok ? tok[tp++] : NULL; }
@@ -1426,10 +1426,11 @@ static void run_script(void)
       int probe = t[2] == 'P';
       int to = (int) nextlong(0);
       int n = (int) nextlong(0);
-      reproc_event_source src[8];
-      int hs[8];
-      memset(src, 0, sizeof src);
-      for (int i = 0; i < n && i < 8; i++) {
+      if (n < 0) n = 0;
+      if (n > 2000) n = 2000;
+      reproc_event_source *src = calloc((size_t) n + 1, sizeof *src);
+      int *hs = calloc((size_t) n + 1, sizeof *hs);
+      for (int i = 0; i < n; i++) {
         const char *hh = nexttok();
         hs[i] = (hh && hh[0] != '-') ? atoi(hh) : -1;
         src[i].process = hs[i] >= 0 ? C[hs[i]].p : NULL;
@@ -1438,18 +1439,16 @@ static void run_script(void)
       }
       op_begin("PL", -1);
       int r = reproc_poll(n > 0 ? src : NULL, (size_t) n, to);
-      char ev[256] = "";
-      for (int i = 0; i < n && i < 8; i++) {
-        char b[48];
-        snprintf(b, sizeof b, "%s[%d,%d,%d]", i ? "," : "", hs[i], src[i].interests,
-                 src[i].events);
-        strcat(ev, b);
-      }
+      char *ev = calloc((size_t) n + 1, 48);
+      size_t evn = 0;
+      for (int i = 0; i < n; i++)
+        evn += (size_t) snprintf(ev + evn, 48, "%s[%d,%d,%d]", i ? "," : "", hs[i], src[i].interests, src[i].events);
       op_end_fmt(r, "\"to\":%d,\"src\":[%s]", to, ev);
+      free(ev);
       if (probe && r > 0) {
         // a reported event promises that the matching call will not block or time out
         int probed[NH] = { 0 };
-        for (int i = 0; i < n && i < 8; i++) {
+        for (int i = 0; i < n; i++) {
           if (hs[i] < 0 || (src[i].events & ~31)) continue;
           int e = src[i].events & ~probed[hs[i]];  // one probe per (handle, event)
           probed[hs[i]] |= src[i].events;
@@ -1463,6 +1462,8 @@ static void run_script(void)
           }
         }
       }
+      free(src);
+      free(hs);
     } else if (!strcmp(t, "DR")) {
       // DR h <outsink> <errsink>     sink: d | n | s<prefixlen> | c | c<k>:<ret>
       int h = (int) nextlong(0);
@@ -1825,7 +1826,7 @@ static void run_case(char *script, int logfd)
     for (int s = 0; s < 3; s++) C[h].handles[s] = -1;
   }
   ntok = 0;
-  for (char *p = strtok(script, " \t\n"); p && ntok < 512; p = strtok(NULL, " \t\n"))
+  for (char *p = strtok(script, " \t\n"); p && ntok < 8192; p = strtok(NULL, " \t\n"))
     tok[ntok++] = p;
   tp = 0;
   g_opidx = -1;
